@@ -43,7 +43,8 @@ claim('C07', 'sibling decision-tree comparison, arm summaries of GameMode switch
 claim('C05', 'loop classification over MIR natural loops (float-accumulator absorption rule) + may-live guard dataflow with call-graph summaries',
       'Decides two clauses for every loop and every guard site of the crate: float-only-exit loops cannot stall (f32 additive '
       'accumulators need a progress guard; shrink loops need an integer-derived start), and no RefCount guard conflict exists '
-      '(RefCell panic). A loop that stalls only above 2^24*step ms is unreachable for the fixture maps. All other panic/hang corners '
+      '(RefCell panic); the asserted mania column search over the whole range excluding only prev_pattern is called only where a free column is '
+      'established. A loop that stalls only above 2^24*step ms is unreachable for the fixture maps. All other panic/hang corners '
       'are numeric and not decided.',
       'IEEE-754 absorption argument; f64 accumulators accepted under the decoder magnitude bound; one frozen guard exception '
       '(find_repetition_interval, acyclic prev chain)', 'DESIGN.md §5 C05')
@@ -57,7 +58,8 @@ claim('C12', 'provenance with closure / Option-combinator expansion (clamp reach
 claim('C10', 'per-configuration type check + configuration-independent body fingerprints (resolved callees/constants/kinds) + guard dataflow under both RefCount bodies',
       'Decides the structural part: all four feature combinations build; every body that differs between configurations lies inside '
       'util::strains_vec / util::sync (a cfg(feature)/cfg!(feature) elsewhere shows up as a differing fingerprint of the resolved '
-      'program, not as a grep hit); guard discipline is identical and conflict-free under RefCell and RwLock. The default-feature suite '
+      'program, not as a grep hit); guard discipline is identical and conflict-free under RefCell and RwLock; both push bodies normalise alike and record one '
+      'section per call; sum / iter / into_vec of both bodies traverse the whole list. The default-feature suite '
       'never compiles the other three configurations. Numerical equivalence of the two StrainsVec bodies is NOT decided.',
       'cargo +nightly check per configuration; fingerprint ignores local types and generic arguments by design', 'DESIGN.md §5 C10')
 claim('C11', 'unsafe-operation inventory from MIR with one obligation rule per kind: typestate dataflow, dominating-guard facts, who-may-write index, call-graph reachability, provenance',
@@ -85,7 +87,8 @@ claim('C06', 'call-graph-scoped decoder discipline: bounded-parse dominance, cla
       'rosu-map 0.2.1 line driver and ParseNumber trusted', 'DESIGN.md §5 C06')
 claim('C08', 'arm summaries of representation matches with identifiers resolved against rosu-mods\' own constant table; who-may-call / who-may-read',
       'Decides that the three mod representations answer alike arm by arm (14 has-mod accessors, 29 key-mod rows, HardRock reflection; legacy `false` allowed '
-      'iff GameModsLegacy has no such flag) and that mod-derived clock rate / attribute values are reachable only through the override-aware getters. '
+      'iff GameModsLegacy has no such flag), that no accessor lets the iteration order of the mod collection decide between mutually exclusive mod '
+      'families (rate mods, HR/EZ), and that mod-derived clock rate / attribute values are reachable only through the override-aware getters. '
       'Numerical equality and lazer per-mod settings are not decided.', 'rosu-mods 0.3.1 semantics of contains/contains_intermode', 'DESIGN.md §5 C08')
 claim('C14', 'provenance of is_convert in every attribute construction (interprocedural through helpers) + who-may-write on Beatmap.is_convert',
       'Decides only the is_convert clause: attributes report exactly the converted map\'s flag and only the converters set it (each with its own mode). '
